@@ -104,6 +104,19 @@ Theorem C12_groupby_alias_defined : forall c sel p t o r,
   end.
 Proof. intros c sel p t o r H. cbn [render_obys]. rewrite H, andb_false_r. reflexivity. Qed.
 
+(* ... and the ORDER BY of a SET OPERATION (rendered with is_builder = false against the select aliases of its base query) likewise *)
+Theorem C12_setop_orderby_alias_defined : forall c sel p t o r,
+  alias_selected (term_alias t) sel = false ->
+  render_obys c sel false p (OCons t o r) =
+  match render c p t with
+  | Ok (s, p1) => match render_obys c sel false p1 r with
+                  | Ok (ss, p2) => Ok ((match o with Some d => s ++ [32] ++ order_sql d | None => s end) :: ss, p2)
+                  | Exn e => Exn e
+                  end
+  | Exn e => Exn e
+  end.
+Proof. intros c sel p t o r H. cbn [render_obys]. rewrite H. reflexivity. Qed.
+
 Example C12_nonvacuous :
   render (set_with_alias true default_ctx) None (TArith Add (TField (L "a") None (Some (L "x"))) (TField (L "b") None None) (Some (L "s"))) =
   Ok (L """a""+""b"" ""s""", None).
